@@ -317,7 +317,7 @@ theorem memberOK_of_WT (m : Mode) (W : Ty → Item → Prop) (hW : ∀ ty it, W 
         | _ + 2, _, h => simp [WTMember] at h
         | 1, [(_, .elems [])], h => simp [WTMember] at h
         | 1, [(_, .elems (_ :: _ :: _))], h => simp [WTMember] at h
-        | 1, [(_, .wild _)], h | 1, [(_, .seqR _)], h | 1, [(_, .choiceR _)], h | 1, [(_, .allR _ _ _)], h | 1, [(_, .groupR _)], h
+        | 1, [(_, .wild _)], h | 1, [(_, .seqR _)], h | 1, [(_, .choiceR _)], h | 1, [(_, .allR _ _)], h | 1, [(_, .groupR _)], h
         | 1, [(_, .failed)], h => simp [WTMember] at h
         | 1, _ :: _ :: _, h => simp [WTMember] at h
       | _ => simp [WTMember] at h
